@@ -1439,6 +1439,7 @@ func c14d(c *Ctx) {
 		{
 			body := loopBody(head)
 			bad := ""
+			var furtherComma []string
 			seenP := map[*ssa.Phi]bool{}
 			var walk func(p *ssa.Phi, top bool)
 			walk = func(p *ssa.Phi, top bool) {
@@ -1470,9 +1471,29 @@ func c14d(c *Ctx) {
 					if !comma {
 						bad = c.nearPos(pred.Instrs[len(pred.Instrs)-1])
 					}
+					// ... for every comma: the arm is chosen by the kind of the token alone (a comma
+					// that is skipped only in moves(), say, is an error in a movement statement)
+					if comma {
+						base := map[string]bool{}
+						for _, sc := range head.Succs {
+							if body[sc] {
+								for _, l := range c.mustLits(fn, sc) {
+									base[verRe.ReplaceAllString(l, "")] = true
+								}
+							}
+						}
+						for _, l := range c.mustLits(fn, pred) {
+							l = verRe.ReplaceAllString(l, "")
+							if base[l] || tokenTypeLitRe.MatchString(l) || errLitRe.MatchString(l) {
+								continue
+							}
+							furtherComma = append(furtherComma, l)
+						}
+					}
 				}
 			}
 			walk(acc, true)
+			c.Check(len(furtherComma) == 0, fn.Name()+"/every-comma-skipped", c.W.Pos(acc.Pos()), "a comma is skipped whatever else holds", fmt.Sprintf("a comma is skipped only under the further condition(s) %v: elsewhere it is an error, although commas between list items are allowed", furtherComma))
 			// ... and a turn only ever adds at the end of what was gathered so far
 			{
 				seenG := map[ssa.Value]bool{}
@@ -1711,6 +1732,9 @@ func c12fSiblings(c *Ctx) {
 		return
 	}
 	same := got[names[0]] == got[names[1]] && got[names[1]] == got[names[2]] && got[names[0]] != ""
+	// ... and what they accept is what is documented: a name or a number (`-s LEVEL=2` with cases
+	// `1:` `2 {…}`)
+	c.Check(strings.Contains(got[names[0]], `.Type == "INT")`) && strings.Contains(got[names[0]], `.Type == "IDENT")`), "case-labels/names-and-numbers", c.W.FuncPos(c.Fn("parser.Parser.parsePoryswitchTextCases")), "a case label is an identifier or a number", "a case is recorded under ["+got[names[0]]+"]: identifiers and numbers must both be accepted as case labels")
 	c.Check(same, "case-labels/siblings-agree", c.W.FuncPos(c.Fn("parser.Parser.parsePoryswitchTextCases")), "statement, text and list cases accept the same labels ("+got[names[0]]+")", fmt.Sprintf("the three poryswitch case parsers accept different case labels: %s [%s], %s [%s], %s [%s]", names[0], got[names[0]], names[1], got[names[1]], names[2], got[names[2]]))
 }
 
